@@ -167,8 +167,8 @@ def format_code(
     if re.findall(r"# pyrefact: skip_file", source):
         return source
 
-    source = source.expandtabs(4)
-    source = rmspace.format_str(source)
+    source = formatting.outside_strings(lambda text: text.expandtabs(4), source)
+    source = formatting.outside_strings(rmspace.format_str, source)
     source = fixes.fix_too_many_blank_lines(source)
 
     if not source.strip():
@@ -260,7 +260,7 @@ def format_code(
     source = fixes.sort_imports(source)
 
     source = fixes.fix_line_lengths(source, max_line_length=max_line_length)
-    source = rmspace.format_str(source)
+    source = formatting.outside_strings(rmspace.format_str, source)
 
     if minimum_indent > 0:
         source = textwrap.indent(source, " " * minimum_indent)
